@@ -85,6 +85,16 @@ def gen_config(draw, nclasses=None, overloads=True, extends=True, keywords=True,
             name = "m%d" % j if draw(st.integers(0, 3)) else "%s%d" % (c[0].lower(), j)
             has_overload = overloads and draw(st.integers(0, 4)) == 0
             # overload sets get rest parameters more often (a rest-bound overload next to a fixed-arity one is the interesting shape)
+            if has_overload and rest and draw(st.integers(0, 2)) == 0:
+                # a rest-bound overload of one element type followed by a fixed-arity overload of another type: a call with one
+                # argument too many for the second is rejected by both (state of the first attempt must not reach the second)
+                ta, tb = draw(st.sampled_from([("Int", "String"), ("String", "Int"), ("Symbol", "Float"), ("Float", "Symbol")]))
+                k = draw(st.integers(1, 2))
+                r0 = draw(gen_type(classes, allow_untyped=False))
+                ims.append({"name": name, "args": [{"types": [ta], "key": None, "default": False, "rest": True}], "ret": r0, "block": []})
+                ims.append({"name": name, "args": [{"types": [tb], "key": None, "default": False, "rest": False} for _ in range(k)],
+                            "ret": draw(gen_type(classes, allow_untyped=False)), "block": []})
+                continue
             ims.append(draw(gen_decl(name, classes, keywords, (2 if has_overload and rest else rest), untyped_ret, arrays)))
             if has_overload:
                 ims.append(draw(gen_decl(name, classes, keywords, rest, untyped_ret, arrays)))
